@@ -301,6 +301,29 @@ func c12AddRegexAndJoin(r *rand.Rand, s *gen.Scenario) {
 		s.Auth.Rules = append(s.Auth.Rules, rules...)
 	}
 	s.Auth.Checks = append(s.Auth.Checks, checks...)
+	// the same set stated twice with its members in another order (one fact: the world keeps whichever
+	// spelling arrives first) and asked for by a set constant in a third order
+	mkset := func(xs ...int64) ast.Term {
+		t := ast.Term{K: ast.KSet}
+		for _, x := range xs {
+			t.Set = append(t.Set, ast.Int(x))
+		}
+		return t
+	}
+	s.Auth.Facts = append(s.Auth.Facts, ast.P("grp", mkset(1, 2, 3)), ast.P("grp", mkset(3, 1, 2)), ast.P("grp", mkset(4, 5)))
+	s.Auth.Rules = append(s.Auth.Rules, ast.Rule{Head: ast.P("member_ok", uu), Body: []ast.Pred{ast.P("grp", mkset(2, 3, 1)), ast.P("j_user", uu)}})
+	s.Auth.Checks = append(s.Auth.Checks, ast.Check{Queries: []ast.Rule{{Head: ast.P("query"), Body: []ast.Pred{ast.P("grp", mkset(1, 2, 3))}}}})
+	// a check (and a policy) whose alternatives are one that cannot be evaluated (division by zero on a
+	// matching fact) and one that holds: their order is presentation
+	bad := ast.Rule{Head: ast.P("query"), Body: []ast.Pred{ast.P("j_user", uu), ast.P("zero", x)}, Exprs: []ast.Expr{{ast.OV(ast.Int(1)), ast.OV(x), ast.OB(int(ast.BDiv)), ast.OV(ast.Int(0)), ast.OB(int(ast.BGreaterOrEqual))}}}
+	good := ast.Rule{Head: ast.P("query"), Body: []ast.Pred{ast.P("j_user", ast.Str("bob"))}}
+	s.Auth.Facts = append(s.Auth.Facts, ast.P("zero", ast.Int(0)))
+	if r.Intn(2) == 0 {
+		s.Auth.Checks = append(s.Auth.Checks, ast.Check{Queries: []ast.Rule{bad, good}})
+	} else {
+		s.Auth.Checks = append(s.Auth.Checks, ast.Check{Queries: []ast.Rule{good, bad}})
+	}
+	s.Auth.Policies = append([]ast.Policy{{Allow: r.Intn(2) == 0, Queries: []ast.Rule{good, bad}}}, s.Auth.Policies...)
 	v0, v1 := ast.Var("v0"), ast.Var("v1")
 	s.Probes = append(s.Probes,
 		ast.Rule{Head: ast.P("probe_re_user", v0), Body: []ast.Pred{ast.P("re_hit_user", v0)}},
@@ -308,6 +331,7 @@ func c12AddRegexAndJoin(r *rand.Rand, s *gen.Scenario) {
 		ast.Rule{Head: ast.P("probe_grandparent", v0, v1), Body: []ast.Pred{ast.P("grandparent", v0, v1)}},
 		ast.Rule{Head: ast.P("probe_great", v0, v1), Body: []ast.Pred{ast.P("great", v0, v1)}},
 		ast.Rule{Head: ast.P("probe_j_can", v0, v1), Body: []ast.Pred{ast.P("j_can", v0, v1)}},
+		ast.Rule{Head: ast.P("probe_member_ok", v0), Body: []ast.Pred{ast.P("member_ok", v0)}},
 		ast.Rule{Head: ast.P("probe_j_direct", v0, v1), Body: []ast.Pred{ast.P("j_resource", v1), ast.P("j_owner", v0, v1), ast.P("j_user", v0)}})
 }
 
@@ -807,6 +831,18 @@ func c18Run(c *core.C) {
 		countBig(c, s)
 		s2 := gen.NewScenario(r, 3, scenOpts)
 		countBig(c, s2)
+		// strings that only the bytes define (not UTF-8, NUL, a long one): the token states them, the
+		// authorizer's check and policy name them as constants, and the snapshot carries those constants
+		var oddCheck *ast.Check
+		var oddPolicy *ast.Policy
+		if r.Intn(2) == 0 {
+			odd := gen.Pick(r, []string{"caf\xe9", "\xff\xfe", "a\x00b", "a\xc3", gen.BigString(gen.Pick(r, []int{127, 128, 300, 16384}), r.Intn(5))})
+			other := gen.Pick(r, []string{"caf\ufffd", "caf\xe8", "a"})
+			s.Blocks[0].Facts = append(s.Blocks[0].Facts, ast.P("odd_name", ast.Str(odd)))
+			oddCheck = &ast.Check{Queries: []ast.Rule{{Head: ast.P("query"), Body: []ast.Pred{ast.P("odd_name", ast.Str(odd))}}}}
+			oddPolicy = &ast.Policy{Allow: false, Queries: []ast.Rule{{Head: ast.P("query"), Body: []ast.Pred{ast.P("odd_name", ast.Str(other))}}}}
+			c.Count("contents_with_odd_strings", 1)
+		}
 		t1, err1 := buildScenarioToken(c.Seed, fmt.Sprintf("c18a-%d-%d", c.Idx, rep), s2.Blocks) // T1: independent token
 		t2, err2 := buildScenarioToken(c.Seed, fmt.Sprintf("c18b-%d-%d", c.Idx, rep), s.Blocks)  // T2: the token the content is about
 		if err1 != nil || err2 != nil {
@@ -814,6 +850,10 @@ func c18Run(c *core.C) {
 			continue
 		}
 		content := s.Auth
+		if oddCheck != nil {
+			content.Checks = append(append([]ast.Check{}, content.Checks...), *oddCheck)
+			content.Policies = append([]ast.Policy{*oddPolicy}, content.Policies...)
+		}
 		if r.Intn(2) == 0 {
 			// every term kind in the snapshot
 			f := ast.P("every_kind")
